@@ -805,7 +805,10 @@ func genTx(rng *rand.Rand, o *Opts, slot uint64, pos int) *Tx {
 		t.MetaRaw = mr
 		t.MetaZ = Zstd(mr)
 	} else {
+		// no metadata is archived for this transaction: its status and the addresses it loaded through
+		// lookup tables are recorded nowhere, so the model must not claim them either
 		t.Failed = false
+		t.LoadedW, t.LoadedR = nil, nil
 	}
 	return t
 }
